@@ -18,7 +18,7 @@ from pbt.core import Collector, HarnessError, mksig
 from pbt.props.c09 import split_tail
 
 ID = "C12"
-RULE = ("matrix of (Term subclass from the live package) x (position: 4 defining, 30 operand slots incl. INSERT VALUES / UPDATE SET / ORDER BY / GROUP BY expressions, 14 operand slots inside select-list items, FROM / JOIN / IN container for selectables) x (six dialect classes) x (get_sql(ctx) / parameterised / str()); plus GROUP BY / ORDER BY by defined and "
+RULE = ("matrix of (Term subclass from the live package) x (position: 4 defining, 30 operand slots incl. INSERT VALUES / UPDATE SET / ORDER BY / GROUP BY expressions, 14 operand slots inside select-list items, FROM / JOIN / IN container for selectables) x (six dialect classes) x (get_sql(ctx) / parameterised / str() / as_keyword context); plus GROUP BY / ORDER BY by defined and "
         "undefined alias. Every cell is one case; a cell is non-trivial when the class can be built and can legally stand in the position; distinct = distinct cell. "
         "The matrix is enumerated completely in both tiers.")
 ASSUMPTIONS = [
@@ -131,7 +131,7 @@ DEFINING = ["select", "select_last", "returning", "distinct_on"]
 WHERE_WRAPPED = ["arith_left", "arith_right", "cmp_left", "cmp_right", "bool_right", "not", "neg", "in_term", "in_elem", "between_term", "between_lo",
                  "fn_arg", "tuple_elem", "isnull", "in_container"]
 SEL_SLOTS = ["sel:" + x for x in WHERE_WRAPPED]
-MODES = ["ctx", "par", "str"]
+MODES = ["ctx", "par", "str", "askw"]  # askw: the class context with as_keyword=True (aliases written AS "x")
 
 
 def statement(cls_name, pos, X, as_selectable=False):
@@ -238,6 +238,8 @@ def render(q, cls_name, mode="ctx"):
         return q.get_sql(prog.sql_context(cls_name).copy(parameterizer=Parameterizer()))
     if mode == "str":
         return str(q)
+    if mode == "askw":
+        return q.get_sql(prog.sql_context(cls_name).copy(as_keyword=True))
     return q.get_sql(prog.sql_context(cls_name))
 
 
